@@ -290,7 +290,12 @@ fn gen_edit(t: &mut Tape) -> Edit {
             let n = t.below(4);
             let mut v: Vec<(String, [u8; 3])> = vec![];
             for _ in 0..n {
-                let mut name = gen_free_text(t).replace(':', "");
+                let mut name = if t.chance(25) {
+                    // names close to the reserved `Combo` prefix / the other reserved keys (only exactly `Combo...` is reserved)
+                    (*t.pick(&["comboBurstTint", "COMBO_FIRE", "combo1", "cOMBO2", "Comb", "xCombo1", "sliderborder", "SLIDERBORDER", "SliderBorder2", "Slider Border", "slidertrackoverride"])).to_string()
+                } else {
+                    gen_free_text(t).replace(':', "")
+                };
                 while name.contains("//") {
                     name = name.replace("//", "/");
                 }
